@@ -29,7 +29,7 @@ defjvp(untake, "same")
 def array_from_args_jvp(argnum, g, ans, args, kwargs):
     # ndmin may have prepended axes of length one to the stacked result
     extra = anp.ndim(ans) - anp.ndim(args[argnum]) - 1
-    if is_discrete(ans):  # dtype=int / bool requested: piecewise constant
+    if is_discrete(ans, args[argnum]):  # dtype=int / bool requested: piecewise constant
         return vspace(ans).zeros()
     return untake(g, (0,) * extra + (argnum - 2,), vspace(ans))
 
@@ -39,8 +39,8 @@ defjvp(
     anp._array_from_scalar_or_array,
     None,
     None,
-    lambda g, ans, args, kwargs, _: (
-        vspace(ans).zeros() if is_discrete(ans) else anp._array_from_scalar_or_array(args, kwargs, g)
+    lambda g, ans, args, kwargs, scarray: (
+        vspace(ans).zeros() if is_discrete(ans, scarray) else anp._array_from_scalar_or_array(args, kwargs, g)
     ),
 )
 
@@ -111,7 +111,9 @@ defjvp(anp.rot90, "same")
 defjvp(anp.trace, "same")
 defjvp(
     anp.full,
-    lambda g, ans, shape, fill_value, dtype=None: vspace(ans).zeros() if is_discrete(ans) else anp.full(shape, g, dtype),
+    lambda g, ans, shape, fill_value, dtype=None: (
+        vspace(ans).zeros() if is_discrete(ans, fill_value) else anp.full(shape, g, dtype)
+    ),
     argnums=(1,),
 )
 defjvp(anp.triu, "same")
